@@ -6,4 +6,5 @@ export CARGO_NET_OFFLINE=true
 cd "$ROOT/harness"
 cargo build --release --target-dir /verif/harness/target
 cargo build --release --no-default-features --target-dir /verif/harness/target-sync
+# the libFuzzer targets (thorough tiers of C10/C11/C12/C20) are built on first use by scripts/fuzz_campaign.sh
 echo "setup ok"
